@@ -68,8 +68,18 @@ type Site struct {
 	F    *Func
 	P    Point
 	Node ast.Node      // the CFG node containing it
-	Call *ast.CallExpr // when the site is a call
+	Call *ast.CallExpr // when the site is a call (for a wrapper site: the virtual inlined call)
 	X    ast.Node      // the precise inner node matched
+	Real *ast.CallExpr // wrapper site: the call that is actually in F's body
+	Via  *Func         // wrapper site: the helper that performs the call
+}
+
+// real returns the call expression that syntactically occurs in s.F.
+func (s Site) real() *ast.CallExpr {
+	if s.Real != nil {
+		return s.Real
+	}
+	return s.Call
 }
 
 func (s Site) Pos() string { return s.F.Pos(s.X) }
